@@ -266,6 +266,7 @@ func h1OneRun(env *Env, c *H1Cfg, st *h1State, runIdx int) {
 	}
 	// injected stalls may hold a finishing goroutine for up to their budget: wait that out before judging leaks
 	drain += time.Duration(env.SimCfg.MaxStalls) * time.Duration(env.SimCfg.StallMaxMs+1) * time.Millisecond
+	env.Sim.Quiesce() // "nothing of the run remains" is judged after faults have stopped
 	time.Sleep(drain)
 	g.LateProgress = countProgress(rec, nLogs)
 	g.LeftoverAfter = leftoverF1(env.PreIDs)
